@@ -17,7 +17,8 @@ PARTIAL = ["copy independence is a heap fact: decided by continuing the history 
            "validity of CPDs after remove_node / do is compared differentially (column-normalised over the remaining graph parents)"]
 RULE = ("random histories of 6-25 (quick) / up to 80 (thorough) operations over a pool of 6 variables, valid:invalid about 3:1, with copy "
         "operations that fork the history; non-trivial = history contains an accepted add_edge and a rejected operation or a copy; "
-        "distinct = case JSON")
+        "distinct = case JSON"
+        " Also: weighted batch insertions, remove_nodes_from and do with iterator arguments, in-place factor edits against earlier copies.")
 ASSUMPTIONS = ["networkx has_path / DiGraph edits are modelled by the edge-list state machine"]
 BUDGET_QUICK = 75
 LEVEL_TEXT = ("Kernel-checked: the state machine model of BayesianNetwork editing (add_node, add_edge with the has_path guard, remove_node, "
